@@ -161,7 +161,7 @@ def finalize(agg, tier):
     for n in CONCURRENT_CLASSES:
         if not c.get("concurrent_overlaps:" + n):
             out.append("class %s: no trial in which the second thread's call began while the first was inside its call" % n)
-    for k in ("TypeError_seen", "copies", "random_sequences", "exhaustive_sequences", "placements_driven", "refused_output_calls"):
+    for k in ("TypeError_seen", "copies", "random_sequences", "exhaustive_sequences", "placements_driven", "refused_output_calls", "refused_update_calls"):
         if not c.get(k):
             out.append("deciding counter %s is zero" % k)
     return out[:12]
@@ -580,6 +580,17 @@ class Driver(object):
             # a permitted encrypt()/decrypt() may also be asked to write into a caller's buffer, or over its own input:
             # "the same ciphertext, plaintext and tag as the one-shot computation" holds for those presentations as well
             placement = ctx.rng.choice([None, None, "output", "in-place"])
+        if self.leg == "random" and call.kind == "ok" and call.method == "update" and call.args and isinstance(call.args[0], bytes) \
+                and cfg.fam in ("hash", "xof") and ctx.rng.random() < 0.15:
+            # the same update() is first made with text instead of octets (refused with TypeError by every class); the caller
+            # catches the exception and repeats the call properly
+            try:
+                o.obj.update("x" * ctx.rng.choice([1, 16, 100, 300, 9000]))
+                ctx.count("refused_update_call_returned:" + name)
+            except TypeError:
+                ctx.count("refused_update_calls")
+            except Exception as e:      # noqa
+                ctx.count("refused_update_call_other_exception:%s:%s" % (name, type(e).__name__))
         if placement is not None and ctx.rng.random() < 0.2:
             # the same call is first made with an output buffer the library refuses (one byte too long, or read-only); the
             # caller catches the exception and repeats the call properly: whatever follows must still equal the one-shot
